@@ -542,8 +542,14 @@ func staticRefs(c *kit.Ctx, ssa bool) {
 		// an XR bound to claim other/owner (variants 0-2) or to nobody (3-5)
 		xr := xrk.XRObject("ex.org/v1", "XThing", "static-xr", "comp", map[string]any{"size": int64(9)})
 		if variant < 3 {
-			_ = unstructured.SetNestedMap(xr, map[string]any{"apiVersion": "ex.org/v1", "kind": "Thing", "namespace": "other", "name": "owner"}, "spec", "claimRef")
-			_ = unstructured.SetNestedStringMap(xr, map[string]string{"crossplane.io/claim-name": "owner", "crossplane.io/claim-namespace": "other"}, "metadata", "labels")
+			// the owning claim lives in another namespace; in variant 1 it has the SAME NAME as the
+			// claim under test
+			owner := "owner"
+			if variant == 1 {
+				owner = "c1"
+			}
+			_ = unstructured.SetNestedMap(xr, map[string]any{"apiVersion": "ex.org/v1", "kind": "Thing", "namespace": "other", "name": owner}, "spec", "claimRef")
+			_ = unstructured.SetNestedStringMap(xr, map[string]string{"crossplane.io/claim-name": owner, "crossplane.io/claim-namespace": "other"}, "metadata", "labels")
 		}
 		w.MustSeed("user", xr)
 		before := w.GetObj(sim.Key{Group: "ex.org", Kind: "XThing", Name: "static-xr"})
